@@ -34,6 +34,13 @@ def evaluate(ctx, sc, d):
         else:
             ctx.count("runs_failed")
             ctx.extra.setdefault("failed_example", (argv, run.err[-300:]))
+            if sc.cores > 1:
+                # "one core and several": a command that one core carries out must not be refused with several
+                r1 = climon.run(d, F.main_argv(sc, sc.report, 1, extra=sc.side), tag="again1", trace=False, timeout=120)
+                ctx.count("refused_multicore_runs_repeated_with_one_core")
+                if r1.rc == 0:
+                    viol("refused-only-with-several-cores", f"exit {run.rc} with {sc.cores} cores ({run.err.strip().splitlines()[-1][:160] if run.err.strip() else ''}) "
+                         "but the same command succeeds with one core")
         return
     # every expected file exists, no unexpected demultiplexed file
     for dest, (f1, f2) in sc.layout.items():
